@@ -923,6 +923,7 @@ def rule_ed(repo, rep, r6):
         rep.analysed_functions.add(f.construct)
         g = cfgmod.build(f.node)
         found = False
+        neg_tests = []
         for n in g.nodes:
             if n.kind != "test":
                 continue
@@ -938,6 +939,17 @@ def rule_ed(repo, rep, r6):
                     ok, why = edge_always_raises(g, n, "T")
                     if ok:
                         found = True
+                        neg_tests.append(n)
+        if found:
+            # ... on EVERY path to a normal return (an early return in front of the check lets "-inf" through)
+            dom = g.dominators()
+            for rn in g.nodes:
+                if rn.kind == "stmt" and isinstance(rn.ast, ast.Return) and rn.id in dom:
+                    okp = any(t.id in dom[rn.id] for t in neg_tests)
+                    r6.ob(okp, f"{f.qualname}: return at line {rn.lineno} behind the negative-entries check")
+                    if not okp:
+                        rep.finding("R15.6", f, rn.ast, f"`{norm(rn.ast)[:50]}` (line {rn.lineno}) returns a container without having passed the `entries < 0` check: on that path "
+                                    f"a negative value (the string '-inf', for one) is accepted as entries", stmt="return around the negative-entries check")
         r6.ob(found, f"{f.qualname}: negative entries rejected")
         if not found:
             rep.finding("R15.6", f, f.node, "ed() does not reject negative entries with a raise", stmt="entries < 0 check")
